@@ -958,9 +958,86 @@ pub fn oracle_c07_listen_twin(op: &str, outs: &[String]) -> String {
     "ok".into()
 }
 
+/// C07 at the Class A windows of the async front-end: a frame heard by `rx_single` in RX1 / RX2 of a
+/// data uplink that the reference codec rejects (not a data frame, or its MIC does not verify at the
+/// hinted counter) and that fits the window's reference size limit ends that window exactly as a
+/// timeout does: the twin history with `O` in its place must make the same radio calls (later
+/// windows, the hand-back of the radio after the window included), give the same answers and the
+/// same later uplinks.
+pub fn oracle_c07_send_twin(op: &str, outs: &[String]) -> String {
+    let (hd, evs) = crate::macsuites::split_events(op);
+    let region = hd.split_whitespace().nth(2).unwrap_or("").to_string();
+    let mut twin_evs = evs.clone();
+    let mut touched = false;
+    let mut joined = false;
+    for (i, ev) in evs.iter().enumerate() {
+        if ev.starts_with("abp") || ev.starts_with("sess") {
+            joined = true;
+        }
+        if ev.starts_with("ajoin") {
+            // whether the join succeeded is not tracked here: stop judging
+            break;
+        }
+        if !ev.starts_with("asend") || !joined {
+            continue;
+        }
+        let out = match outs.get(i) {
+            Some(o) => o,
+            None => break,
+        };
+        let calls: Vec<&str> = out.strip_prefix("calls=").and_then(|s| s.split(" => ").next()).unwrap_or("").split(';').collect();
+        let (cmd, script_s) = ev.split_once('|').unwrap_or((ev, ""));
+        let mut script: Vec<String> = script_s.split_whitespace().map(|t| t.to_string()).collect();
+        let mut idx = 0usize;
+        let mut mp: Option<u32> = None;
+        let mut changed = false;
+        for c in calls {
+            let consumes = c.starts_with("tx(") || c.starts_with("srx(") || c == "rxc" || c == "rxs" || c == "lp";
+            if !consumes {
+                continue;
+            }
+            if c.starts_with("srx(") {
+                let f: Vec<&str> = c.trim_start_matches("srx(").trim_end_matches(')').split(',').collect();
+                mp = ref_mp(&region, &f);
+            }
+            if c == "rxs" {
+                if let Some(t) = script.get(idx) {
+                    if let Some(rest) = t.strip_prefix('R') {
+                        let f: Vec<&str> = rest.split('/').collect();
+                        let len = f.get(1).map(|h| h.len() / 2).unwrap_or(0) as u32;
+                        let rejected = f.len() < 3 || f[2] != "d" || f.get(6).map(|m| m.parse::<u32>().is_err()).unwrap_or(true);
+                        let fits = mp.map(|m| len <= m + 5).unwrap_or(false);
+                        if rejected && fits {
+                            script[idx] = "O".into();
+                            changed = true;
+                        }
+                    }
+                }
+            }
+            idx += 1;
+        }
+        if changed {
+            twin_evs[i] = format!("{}| {}", cmd, script.join(" "));
+            touched = true;
+        }
+    }
+    if !touched {
+        return "ok".into();
+    }
+    let twin_op = format!("{} ; {}", hd, twin_evs.join(" ; "));
+    let twin = crate::adev::run_history(&twin_op);
+    for i in 0..outs.len().max(twin.len()) {
+        let (a, b) = (outs.get(i).map(|s| s.as_str()).unwrap_or("-"), twin.get(i).map(|s| s.as_str()).unwrap_or("-"));
+        if a != b {
+            return format!("FAIL:send-twin-differs-at-{}", i);
+        }
+    }
+    "ok".into()
+}
+
 /// every device-level oracle that applies to the async front-end, in one
 pub fn oracle_dev_all(op: &str, outs: &[String]) -> String {
-    for f in [oracle_c04_dev as fn(&str, &[String]) -> String, oracle_c06_dev, oracle_c10_dev, oracle_c05_dev, oracle_c07_join_twin, oracle_c07_listen_twin, oracle_c12_dev_silent, oracle_c20_dev_restore] {
+    for f in [oracle_c04_dev as fn(&str, &[String]) -> String, oracle_c06_dev, oracle_c10_dev, oracle_c05_dev, oracle_c07_join_twin, oracle_c07_listen_twin, oracle_c07_send_twin, oracle_c12_dev_silent, oracle_c20_dev_restore] {
         let r = f(op, outs);
         if r != "ok" {
             return r;
